@@ -78,9 +78,10 @@ statement; distinct = distinct hash of (kind, program, sources, environment or s
             "probe.c.switch_inside_execution",
             "probe.c.cancel_other",
             "probe.c.multi_worker_runs",
+            "probe.c.deep_chain_runs",
             "probe.e.old_text_reloaded",
         ],
-        fault_kinds: vec!["hash_keys", "layout", "heap_reuse", "trace_log", "clock_fast_forward", "sched", "lock_wait", "cancel_at_k", "cancel_other", "exec_error"],
+        fault_kinds: vec!["hash_keys", "layout", "heap_reuse", "trace_log", "stack_depth", "clock_fast_forward", "sched", "lock_wait", "cancel_at_k", "cancel_other", "exec_error"],
     }
 }
 
@@ -133,14 +134,38 @@ pub struct Env {
     /// the monotonic clock of the run's thread fast-forwards by up to 3 s per reading (a very
     /// slow machine); only used for single-threaded runs (sub-check a)
     pub fast_clock: bool,
+    /// the caller's stack depth varies: executions are started from frames up to 3 MiB below
+    /// the thread's entry point (sub-check a: the whole run; b: from step to step)
+    pub deep_stack: bool,
+}
+
+/// Calls `f` from a frame that lies `kib` KiB further down the stack.
+#[inline(never)]
+fn at_depth<R>(kib: usize, f: &mut dyn FnMut() -> R) -> R {
+    if kib == 0 {
+        return f();
+    }
+    let mut pad = [0u8; 1024];
+    std::hint::black_box(&mut pad);
+    let r = at_depth(kib - 1, f);
+    std::hint::black_box(&mut pad);
+    r
+}
+
+/// The stack depth (KiB below the thread's entry) from which step `i` of a run is started.
+fn step_depth(env: &Env, i: usize) -> usize {
+    if !env.deep_stack {
+        return 0;
+    }
+    [0, 0, 96, 1536, 3072][(rng::mix(env.layout_seed, 0x57ac + i as u64) % 5) as usize]
 }
 
 impl Env {
     fn control() -> Env {
-        Env { hash_seed: CONTROL_HASH, policy: Policy::Compact, layout_seed: 0, lifo_heap: false, trace_log: false, fast_clock: false }
+        Env { hash_seed: CONTROL_HASH, policy: Policy::Compact, layout_seed: 0, lifo_heap: false, trace_log: false, fast_clock: false, deep_stack: false }
     }
     fn to_json(&self) -> J {
-        json!({"hash_seed": self.hash_seed, "layout": self.policy.name(), "layout_seed": self.layout_seed, "lifo_heap": self.lifo_heap, "trace_log": self.trace_log, "fast_clock": self.fast_clock})
+        json!({"hash_seed": self.hash_seed, "layout": self.policy.name(), "layout_seed": self.layout_seed, "lifo_heap": self.lifo_heap, "trace_log": self.trace_log, "fast_clock": self.fast_clock, "deep_stack": self.deep_stack})
     }
     fn from_json(j: &J) -> Env {
         Env {
@@ -150,6 +175,7 @@ impl Env {
             lifo_heap: j["lifo_heap"].as_bool().unwrap_or(false),
             trace_log: j["trace_log"].as_bool().unwrap_or(false),
             fast_clock: j["fast_clock"].as_bool().unwrap_or(false),
+            deep_stack: j["deep_stack"].as_bool().unwrap_or(false),
         }
     }
 }
@@ -214,9 +240,10 @@ fn load_exec(text: &str, source: &str, globs: &Globs, lazy: bool, cancel_at: Opt
     set_log_env(env);
     let (t, s, g) = (text.to_string(), source.to_string(), globs.clone());
     let fast = if env.fast_clock { Some(env.layout_seed | 1) } else { None };
+    let depth = if env.deep_stack { 2048 } else { 0 };
     entropy::with_thread_env(env.hash_seed, env.lifo_heap, move || {
         entropy::set_thread_clock_fast(fast);
-        let r = load_exec_here(&t, &s, &g, lazy, cancel_at);
+        let r = at_depth(depth, &mut || load_exec_here(&t, &s, &g, lazy, cancel_at));
         CLOCK_READS.fetch_add(entropy::thread_clock_reads(), std::sync::atomic::Ordering::Relaxed);
         entropy::set_thread_clock_fast(None);
         r
@@ -376,6 +403,41 @@ pub fn make_inputs(seed: u64, tier: Tier, ticks: bool) -> Inputs {
     }
 }
 
+/// Rare, heavy inputs for sub-check (c): every statement's index is one more than its
+/// predecessor's, over more than a thousand statements — in lazy mode a chain of values that is
+/// forced from its far end, with a poll (a yield point) at every level.  Several workers are
+/// deep inside their own chain at the same time.
+fn deep_chain_inputs(r: &mut Rng) -> Inputs {
+    let text = r#"(module . (expression_statement) @first)
+{
+  let @first.index = 0
+}
+
+(module (expression_statement) @prev . (expression_statement) @stmt)
+{
+  let @stmt.index = (plus @prev.index 1)
+}
+
+(module (expression_statement) @last .) @mod
+{
+  let @mod.last = @last.index
+}
+
+(module (expression_statement)+ @_stmts) @mod
+{
+  node @mod.mnode
+  attr (@mod.mnode) kind = "module", last = @mod.last
+}
+"#;
+    let sources = (0..2)
+        .map(|_| {
+            let n = r.range(1050, 1400);
+            (0..n).map(|i| format!("v{}\n", i)).collect::<String>()
+        })
+        .collect();
+    Inputs { kind: "deep-chain".into(), text: text.into(), sources, globs: vec![], alt_globs: vec![vec![]], variants: vec![] }
+}
+
 fn inputs_json(i: &Inputs) -> J {
     json!({"kind": i.kind, "tsg": i.text, "sources": i.sources, "globals": simrun::globs_json(&i.globs), "alt_globals": i.alt_globs.iter().map(simrun::globs_json).collect::<Vec<_>>(), "variants": i.variants})
 }
@@ -412,6 +474,7 @@ fn random_env(r: &mut Rng) -> Env {
         lifo_heap: r.chance(1, 2),
         trace_log: r.chance(1, 3),
         fast_clock: r.chance(1, 3),
+        deep_stack: r.chance(1, 3),
     }
 }
 
@@ -542,6 +605,7 @@ struct BStats {
     statements: bool,
     transcript: u64,
     discarded: bool,
+    deep_steps: u64,
 }
 
 /// A text the loader rejects, built from the run's own program so that the stanzas before the
@@ -586,9 +650,11 @@ fn check_b(inp: &Inputs, steps: &[Step], env: &Env) -> Result<(BStats, Option<Fo
     alloc::begin_run(env.policy, env.layout_seed);
     set_log_env(env);
     let (inp2, steps2, refs2) = (inp.clone(), steps.to_vec(), refs.clone());
+    let env2 = env.clone();
     let r = entropy::with_thread_env(env.hash_seed, env.lifo_heap, move || -> (BStats, Option<Found>) {
         let mut st = BStats::default();
         let inp = inp2;
+        let env = env2;
         let file = match simrun::load(&inp.text) {
             Ok(f) => f,
             Err(_) => return (st, None),
@@ -679,7 +745,11 @@ fn check_b(inp: &Inputs, steps: &[Step], env: &Env) -> Result<(BStats, Option<Fo
                     let vars = &all_vars[gv];
                     let vars0 = &all_vars0[gv];
                     simrun::log_clear();
-                    let out = simrun::execute(&file, trees[*tree].as_ref().unwrap(), &inp.sources[*tree], *lazy, &fns, vars, &flag);
+                    let depth = step_depth(&env, i);
+                    if depth > 1024 {
+                        st.deep_steps += 1;
+                    }
+                    let out = at_depth(depth, &mut || simrun::execute(&file, trees[*tree].as_ref().unwrap(), &inp.sources[*tree], *lazy, &fns, vars, &flag));
                     let log = simrun::log_take();
                     st.executions += 1;
                     st.statements |= !log.is_empty();
@@ -1151,7 +1221,7 @@ pub fn run_shard(ctx: &ShardCtx, rep: &mut Report) {
         rep.add("shared_mutable_state_sites_in_repo", hits.len() as u64);
         if !hits.is_empty() {
             rep.notes.push(format!(
-                "C12: /repo/src now declares process- or thread-wide mutable state at {} site(s) (first: {}). Interleavings are explored at poll/tick/task granularity only; a race between two synchronisation operations inside one library call is outside what this check can reach (DESIGN.md 10.4).",
+                "C12: /repo/src now declares process- or thread-wide mutable state at {} site(s) (first: {}). Interleavings are explored at poll/tick/task granularity and at contended locks; a race that needs pre-emption between two uncontended synchronisation operations inside one library call is outside what this check can reach (DESIGN.md 10.4).",
                 hits.len(),
                 hits[0]
             ));
@@ -1246,6 +1316,8 @@ pub fn run_shard(ctx: &ShardCtx, rep: &mut Report) {
                         rep.add("fault.layout.fired", envs.iter().filter(|e| e.policy != Policy::Compact).count() as u64);
                         rep.add("fault.clock_fast_forward.configured", envs.iter().filter(|e| e.fast_clock).count() as u64);
                         rep.add("fault.clock_fast_forward.fired", CLOCK_READS.swap(0, std::sync::atomic::Ordering::Relaxed));
+                        rep.add("fault.stack_depth.configured", envs.iter().filter(|e| e.deep_stack).count() as u64);
+                        rep.add("fault.stack_depth.fired", envs.iter().filter(|e| e.deep_stack).count() as u64);
                         rep.add("fault.trace_log.configured", envs.iter().filter(|e| e.trace_log).count() as u64);
                         rep.add("fault.trace_log.fired", envs.iter().filter(|e| e.trace_log).count() as u64);
                         if st.discarded {
@@ -1310,6 +1382,7 @@ pub fn run_shard(ctx: &ShardCtx, rep: &mut Report) {
                         rep.add("probe.b.tree_at_recycled_address", st.recycled);
                         rep.add("probe.b.other_file_on_same_thread", st.other_files);
                         rep.add("probe.b.rejected_load_in_history", st.broken_loads);
+                        rep.add("b.steps_started_deep_in_the_callers_stack", st.deep_steps);
                         if st.globals_varied {
                             rep.count("probe.b.globals_vary_between_steps");
                         }
@@ -1352,7 +1425,17 @@ pub fn run_shard(ctx: &ShardCtx, rep: &mut Report) {
                 }
             }
             _ => {
-                let plan = gen_plan(&mut r, inp.sources.len(), inp.alt_globs.len());
+                let deep = r.chance(1, 40);
+                let inp = if deep { deep_chain_inputs(&mut r) } else { inp };
+                let mut plan = gen_plan(&mut r, inp.sources.len(), inp.alt_globs.len());
+                if deep {
+                    rep.count("probe.c.deep_chain_runs");
+                    for t in plan.workers.iter_mut().flatten() {
+                        t.lazy = true;
+                        t.cancel_at = t.cancel_at.map(|k| k * 97);
+                        t.reload = false;
+                    }
+                }
                 let env = random_env(&mut r);
                 match check_c(&inp, &plan, &env) {
                     Err(m) => rep.harness_error(format!("C12c run {}: {}", i, m)),
